@@ -125,11 +125,18 @@ impl TimerQueue {
     }
 
     pub(super) fn next(&self) -> Option<SimTime> {
-        self.pending
-            .borrow()
+        // Slots that lost all their entries (timers dropped or reset before their
+        // deadline) must not hide later slots that still hold live timers.
+        // An empty slot is not referenced by any entry handle anymore, and
+        // `add` creates slots on demand, so such slots can be discarded.
+        let mut pending = self.pending.borrow_mut();
+        while pending
             .front()
-            .filter(|slot| !slot.entrys.borrow().is_empty())
-            .map(|s| s.time)
+            .is_some_and(|slot| slot.entrys.borrow().is_empty())
+        {
+            pending.pop_front();
+        }
+        pending.front().map(|s| s.time)
     }
 
     pub(crate) fn bump(&self) -> Vec<TimerSlot> {
